@@ -32,6 +32,7 @@ class SourceBase:
         self.susp = spec.get("susp", 0)
         self.csusp = spec.get("csusp", False)
         self.eqsrc = bool(spec.get("eqsrc"))
+        self.falsy = bool(spec.get("falsy"))  # a source object that is falsy although it has items (len() == backlog)
         fault = spec.get("fault")
         self.fault_at = fault["at"] if fault else None
         self.fault_exc = None
@@ -64,6 +65,9 @@ class SourceBase:
 
     def __hash__(self):
         return 0 if self.eqsrc else id(self) >> 4
+
+    def __bool__(self):
+        return not self.falsy
 
     # one pull, shared by all flavours; returns (kind, value)
     def _begin(self):
